@@ -476,10 +476,10 @@ def getattr_(it, obj, name, node=None):
         h = getattr(obj, "_getattr", None)
         if h is not None:
             return h(it, name, node)
-        from . import models
-        m = models.sv_method(obj, name)
-        if m is not None:
-            return m
+        for hk in getattr(it.engine, "attr_hooks", ()):
+            m = hk(it, obj, name)
+            if m is not None:
+                return m
         raise OutOfSubset(f"attribute {name} of {type(obj).__name__}", node)
     try:
         return getattr(obj, name)
